@@ -87,10 +87,10 @@ pub fn trait_default(d: &Desc) -> MVal {
         Desc::Probe(id) => MVal::DfltTrait(*id),
         Desc::Scalar(s) => match s {
             Sc::Bool => MVal::Bool(false),
-            Sc::U8 | Sc::I32 | Sc::U64 => MVal::Int(0),
+            Sc::U8 | Sc::I32 | Sc::U64 | Sc::Int(_) => MVal::Int(0),
             Sc::Str => MVal::Str(String::new()),
             Sc::Char => MVal::Char('\0'),
-            Sc::F64 => MVal::F64(0f64.to_bits()),
+            Sc::F64 | Sc::F32 => MVal::F64(0f64.to_bits()),
             Sc::Unit => MVal::Unit,
         },
         Desc::Option(_) => MVal::None,
@@ -136,31 +136,38 @@ impl<'a> Model<'a> {
             self.report(out, ExpClass::Unexpected { contains: None }, loc);
             None
         };
+        if let Some(t) = s.int_ty() {
+            // admissible kinds: non-negative integers always, negative integers for signed
+            // targets; then the value must lie in the target's domain (range, non-zero)
+            let v: i128 = match doc {
+                Doc::Int(x) => *x as i128,
+                Doc::Neg(x) if t.signed => *x as i128,
+                d => {
+                    let acc: &[Kind] = if t.signed { &[Kind::Integer, Kind::NegativeInteger] } else { &[Kind::Integer] };
+                    return self.kind_err(out, d, acc, loc);
+                }
+            };
+            if v < t.min || v > t.max || (t.nonzero && v == 0) {
+                return unexpected(out);
+            }
+            return Some(MVal::Int(v));
+        }
         match s {
+            Sc::U8 | Sc::U64 | Sc::I32 | Sc::Int(_) => unreachable!(),
             Sc::Bool => match doc {
                 Doc::Bool(b) => Some(MVal::Bool(*b)),
                 d => self.kind_err(out, d, &[Kind::Boolean], loc),
-            },
-            Sc::U8 => match doc {
-                Doc::Int(x) if *x <= u8::MAX as u64 => Some(MVal::Int(*x as i128)),
-                Doc::Int(_) => unexpected(out),
-                d => self.kind_err(out, d, &[Kind::Integer], loc),
-            },
-            Sc::U64 => match doc {
-                Doc::Int(x) => Some(MVal::Int(*x as i128)),
-                d => self.kind_err(out, d, &[Kind::Integer], loc),
-            },
-            Sc::I32 => match doc {
-                Doc::Int(x) if *x <= i32::MAX as u64 => Some(MVal::Int(*x as i128)),
-                Doc::Int(_) => unexpected(out),
-                Doc::Neg(x) if *x >= i32::MIN as i64 && *x <= i32::MAX as i64 => Some(MVal::Int(*x as i128)),
-                Doc::Neg(_) => unexpected(out),
-                d => self.kind_err(out, d, &[Kind::Integer, Kind::NegativeInteger], loc),
             },
             Sc::F64 => match doc {
                 Doc::Int(x) => Some(MVal::F64((*x as f64).to_bits())),
                 Doc::Neg(x) => Some(MVal::F64((*x as f64).to_bits())),
                 Doc::Float(x) => Some(MVal::F64(x.to_bits())),
+                d => self.kind_err(out, d, &[Kind::Float, Kind::Integer, Kind::NegativeInteger], loc),
+            },
+            Sc::F32 => match doc {
+                Doc::Int(x) => Some(MVal::F64(((*x as f32) as f64).to_bits())),
+                Doc::Neg(x) => Some(MVal::F64(((*x as f32) as f64).to_bits())),
+                Doc::Float(x) => Some(MVal::F64(((*x as f32) as f64).to_bits())),
                 d => self.kind_err(out, d, &[Kind::Float, Kind::Integer, Kind::NegativeInteger], loc),
             },
             Sc::Str => match doc {
@@ -193,7 +200,7 @@ impl<'a> Model<'a> {
             Sc::Str => Some(MVal::Str(piece.to_string())),
             Sc::Char => piece.parse::<char>().ok().map(MVal::Char),
             Sc::F64 => piece.parse::<f64>().ok().map(|x| MVal::F64(x.to_bits())),
-            Sc::Unit => None,
+            Sc::Unit | Sc::F32 | Sc::Int(_) => None,
         }
     }
 
